@@ -404,11 +404,40 @@ def trial_record(ctx):
             okc = txt.index('self.compensator.operands') < \
                 txt.index('self.compensator.run()') if \
                 'self.compensator.operands' in txt else False
+    # the recorded compensator value: read after the run, from the
+    # compensator variables, and in LENS units - a scaled variable
+    # (apply_scaling) holds the optimiser's units in .value, so it goes
+    # through inverse_scale
+    loops = [n for n in ast.walk(ac.node) if isinstance(n, ast.For) and
+             'self.compensator.variables' in unparse(n.iter)]
+    rec_ok = False
+    units_ok = False
+    for lp in loops:
+        body = unparse(lp, 100000)
+        if "result[f'C{i}: {str(var)}']" in body and 'var.value' in body:
+            rec_ok = True
+        for n_ in ast.walk(lp):
+            if isinstance(n_, ast.If) and 'apply_scaling' in unparse(n_.test) \
+                    and 'inverse_scale' in unparse(n_, 100000):
+                units_ok = True
+    legacy = find(ac, "{f'C{i}: {str(var)}': var.value for i, var in "
+                      "enumerate(self.compensator.variables)}")
+    if legacy:
+        rec_ok = True
     if okc and find(ac, 'self.compensator.operands = self.operands') and \
-            find(ac, "{f'C{i}: {str(var)}': var.value for i, var in "
-                     "enumerate(self.compensator.variables)}"):
+            rec_ok and not units_ok:
+        res.fail(ctx.finding(
+            'TRIAL-RECORD', ac, ac.node,
+            'the compensator values of a trial are recorded as var.value, '
+            'which for the scaled compensator variables is the optimiser\'s '
+            'unit (thickness t/10 - 1, radius R/100 - 1): a back focal '
+            'distance of 45.639 mm is reported as 3.564, so the trial row '
+            'does not reproduce on a fresh lens',
+            construct='compensator values in scaled units'))
+    elif okc and find(ac, 'self.compensator.operands = self.operands') and \
+            rec_ok:
         res.ok('apply_compensators: same operands, run, then read the '
-               'variables')
+               'variables in lens units')
     else:
         res.fail(ctx.finding('TRIAL-RECORD', ac, ac.node,
                              'compensation does not optimise the tolerancing '
